@@ -446,6 +446,51 @@ def apply_trailer_fault(doc: Doc, opts: Dict[str, Any], path: Tuple[Any, ...], k
     return data if state["ok"] else None
 
 
+# the dictionaries of the cross-reference stream and of the object stream are made by the writer, not by the document model:
+# they are damaged through a hook of the writer (a value of another type, a key removed, arrays too short / too long /
+# holding a string / holding a negative number)
+CONTAINER_KEYS = {"xref": ["Size", "W", "Index", "Type", "Filter", "Root", "Length"], "objstm": ["N", "First", "Type", "Filter", "Extends", "Length"]}
+CONTAINER_KINDS = ["k_null", "k_true", "k_zero", "k_neg1", "k_big", "k_real", "k_name", "k_string", "k_empty_array", "k_array1", "k_empty_dict",
+                   "k_remove", "k_arr_short", "k_arr_long", "k_arr_str", "k_arr_neg"]
+
+
+def apply_container_fault(doc: Doc, opts: Dict[str, Any], which: str, key: str, kind: str) -> Optional[bytes]:
+    from vf.gen.pdfw import Real
+
+    d2 = copy.deepcopy(doc)
+    hit = []
+
+    def hook(w: str, d: Dict[Any, Any]) -> None:
+        if w != which:
+            return
+        cur = d.get(key)
+        if kind == "k_remove":
+            if key not in d:
+                return
+            d.pop(key)
+        elif kind.startswith("k_arr_"):
+            base = list(cur) if isinstance(cur, list) else ([0, d.get("Size", 1)] if key == "Index" else None)
+            if base is None or not base:
+                return
+            if kind == "k_arr_short":
+                base = base[:-1]
+            elif kind == "k_arr_long":
+                base = base + [1]
+            elif kind == "k_arr_str":
+                base[len(base) // 2] = b"x"
+            else:
+                base[0] = -1
+            d[key] = base
+        else:
+            d[key] = {"k_null": None, "k_true": True, "k_zero": 0, "k_neg1": -1, "k_big": 2 ** 40, "k_real": Real("1.5"), "k_name": Name("Xyz"),
+                      "k_string": b"str", "k_empty_array": [], "k_array1": [7], "k_empty_dict": {}}[kind]
+        hit.append(1)
+
+    d2.container_hook = hook       # type: ignore[attr-defined]
+    data = build(d2, opts)
+    return data if hit else None
+
+
 def apply_stream_fault(doc: Doc, n: int, kind: str, rng: random.Random, opts: Optional[Dict[str, Any]] = None) -> Optional[Doc]:
     d2 = copy.deepcopy(doc)
     st = d2.objs[n]
@@ -622,6 +667,11 @@ def enumerate_cases(seed_name: str, doc: Doc, opts: Dict[str, Any]) -> List[Tupl
     for path in trailer_sites(doc, opts):
         for kind in VALUE_KINDS + STRUCT_KINDS:
             cases.append(("trailer", path, kind))
+    if opts.get("xref") == "stream":
+        for which in (("xref", "objstm") if opts.get("objstm") else ("xref",)):
+            for key in CONTAINER_KEYS[which]:
+                for kind in CONTAINER_KINDS:
+                    cases.append(("container", (which, key), kind))
     data = build(doc, opts)
     full = seed_name in ("basic", "xrefstm")
     step = 1 if full else 7
@@ -657,6 +707,8 @@ def make_case(doc: Doc, opts: Dict[str, Any], case: Tuple[str, Any, str], base: 
     if fam == "content":
         d2 = apply_content_fault(doc, site[0], site[1], kind)
         return build(d2, opts) if d2 is not None else None
+    if fam == "container":
+        return apply_container_fault(doc, opts, site[0], site[1], kind)
     if fam == "trunc":
         return base[:site]
     sx = base.rfind(b"startxref")
@@ -805,6 +857,12 @@ def case_stride(doc: Doc, case: Tuple[str, Any, str], stride: int, base: bytes =
         return 1                    # cuts that leave a half-read token: all of them, every run
     if fam == "bits" and site[1] < 8:
         return 1                    # header bits of LZW / RunLength / ASCII / CCITT payloads: all of them, every run
+    if fam == "container":
+        return min(stride, 2)
+    if fam == "obj" and any(isinstance(x, tuple) and x[0] == "k" and x[1] in ("ColorSpace", "DecodeParms", "Encrypt") for x in site[1:]):
+        return min(stride, 3)       # colour-space arrays, filter parameters: many types meet few code paths
+    if fam == "content":
+        return min(stride, 4)       # of the four ill-typed replacements of one token (name, string, array, dictionary) at least one is run
     if fam == "stream" and kind.startswith("s_lencut"):
         return min(stride, 2)
     if fam == "obj" and kind in ("string", "name"):
